@@ -95,6 +95,9 @@ func runScript(ctx context.Context, options *Options, script *plruntime.Script) 
 		if err != nil {
 			return fmt.Errorf("parse line protocol error: %w", err)
 		}
+		if len(pts) == 0 {
+			return fmt.Errorf("parse line protocol error: no point in input")
+		}
 		pt := influxdb.NewPointFrom(pts[0])
 
 		f, err := pt.Fields()
